@@ -624,4 +624,96 @@ def exportImports (g : List (Nat × Nat)) (opt : Option Nat) (current : Nat) : L
   | some _ => g
   | none => g ++ [(1, match opt with | some k => k | none => current)]
 
+/-! ## the one-node model an eager call is run as
+
+`Op.__call__ → BaseEvaluator.eval_op → ORTEvaluator._eval → _call_ort →
+evaluator._prepare_model_and_inputs_for_eager(schema, args, kwargs, …)`: the schema object the generated method
+obtained from `get_schema(<literals>)` decides `op_type`, `domain` and the single `opset_import`
+`(schema.domain, schema.since_version)`; an argument that is `None` becomes the empty input name and is not fed;
+a keyword whose value is `None` is not made an attribute; `ir_version = values.select_ir_version(since, domain)`. -/
+
+/-- `enc "ai.onnx"` -/
+def aiOnnx : Nat := 99476314937781880
+
+/-- `onnx.helper.OP_SET_ID_VERSION_MAP.get((domain, version))` -/
+def findIr (d v : Nat) : List ((Nat × Nat) × Nat) → Option Nat
+  | [] => none
+  | e :: es => if e.1.1 == d && e.1.2 == v then some e.2 else findIr d v es
+
+/-- `max(v for k, v in OP_SET_ID_VERSION_MAP.items() if k[0] == "ai.onnx")` -/
+def maxIrOf (d : Nat) : List ((Nat × Nat) × Nat) → Nat
+  | [] => 0
+  | e :: es => if e.1.1 == d then max e.2 (maxIrOf d es) else maxIrOf d es
+
+/-- `values.select_ir_version(version, domain)`: `''` reads as `ai.onnx`; an unlisted (domain, version) gets the
+newest `ai.onnx` ir_version, a listed one `max(required, 10)` -/
+def selectIrVersion (irMap : List ((Nat × Nat) × Nat)) (version domain : Nat) : Nat :=
+  let d := if domain == 1 then aiOnnx else domain
+  match findIr d version irMap with
+  | none => maxIrOf aiOnnx irMap
+  | some r => max r 10
+
+structure EagerModel (α : Type) where
+  opType : Nat
+  domain : Nat
+  /-- `node.input`: `some i` = the name `input{i}`; `none` = `""` (`_rename_io` of a `None` argument) -/
+  inputNames : List (Option Nat)
+  /-- the `AttributeProto`s: keyword arguments in call order whose value `is not None` -/
+  attrs : List (Nat × Dflt)
+  /-- the model's only `opset_import` -/
+  opsetImport : Nat × Nat
+  irVersion : Nat
+  /-- `session_run_input`, in order: `input{i}` ↦ value -/
+  feeds : List (Nat × α)
+
+/-- `[_rename_io("input", i, arg) for i, arg in enumerate(args)]`, counting from `i` -/
+def renameFrom : Nat → List (Option α) → List (Option Nat)
+  | _, [] => []
+  | i, none :: xs => none :: renameFrom (i + 1) xs
+  | i, some _ :: xs => some i :: renameFrom (i + 1) xs
+
+/-- `{name: arg for name, arg in zip(inputs, args) if name != ""}`, counting from `i` -/
+def feedsFrom : Nat → List (Option α) → List (Nat × α)
+  | _, [] => []
+  | i, none :: xs => feedsFrom (i + 1) xs
+  | i, some v :: xs => (i, v) :: feedsFrom (i + 1) xs
+
+/-- `_prepare_model_and_inputs_for_eager(schema, inputs, attributes, …)` -/
+def modelOf (irMap : List ((Nat × Nat) × Nat)) (s : Schema) (inputs : List (Option α))
+    (attrs : List (Nat × Dflt)) : EagerModel α :=
+  ⟨s.name, s.domain, renameFrom 0 inputs, dropNone attrs, (s.domain, s.since),
+    selectIrVersion irMap s.since s.domain, feedsFrom 0 inputs⟩
+
+/-- pairwise distinct (Boolean, for the kernel) -/
+def distinctNat : List Nat → Bool
+  | [] => true
+  | x :: xs => !xs.contains x && distinctNat xs
+
+/-- strictly increasing (Boolean, for the kernel) -/
+def increasing : List Nat → Bool
+  | [] => true
+  | [_] => true
+  | a :: b :: r => decide (a < b) && increasing (b :: r)
+
+/-- per (domain, name) of the chunks, the registered `since_version`s are pairwise distinct: a key
+(name, since_version, domain) names one schema -/
+def keysUnique (reg : List Schema) (chunks : List (Nat × List Nat)) : Bool :=
+  chunks.all (fun g => g.2.all (fun n => selectS g.1 n reg [] (fun S => distinctNat (S.map Schema.since))))
+
+/-- the parameter names of a generated `def` are pairwise distinct (anything else is a `SyntaxError`) -/
+def paramsDistinct (m : Method) : Bool :=
+  distinctNat (m.pos.map Prod.fst ++ (match m.vararg with | some v => [v] | none => []) ++ m.kwonly.map Prod.fst)
+
+/-- the whole eager path of `opsetN.Name(*args, **kw)` up to the model handed to the runtime: Python binding and
+forwarding (`eagerCall`), `schema = get_schema(<the method's literals>)` against the registry (raises when nothing
+is registered under them), then the one-node model for *that schema object*.  `none` = the call raises. -/
+def eagerRun (reg : List Schema) (irMap : List ((Nat × Nat) × Nat)) (m : Method) (args : List (Option α))
+    (kw : List (Nat × Dflt)) : Option (EagerModel α) :=
+  match eagerCall m args kw with
+  | none => none
+  | some node =>
+    match lookup reg node.key.2.2 node.key.2.1 node.key.1 with
+    | none => none
+    | some s => some (modelOf irMap s node.inputs node.attrs)
+
 end OV.C17
